@@ -101,7 +101,7 @@ def tree_hash():
         dirs.sort()
         for f in sorted(files):
             h.update(open(os.path.join(root, f), "rb").read())
-    h.update(b"v3")
+    h.update(b"v4")
     return h.hexdigest()[:20]
 
 
@@ -111,17 +111,43 @@ def _filter_for(unit):
     return "coloquinte"
 
 
+_FUNC_DEF = re.compile(r"^(?:static\s+|inline\s+|constexpr\s+)*[A-Za-z_][\w:<>,\s\*&]*?[\s\*&](\w+)\s*\([^;{}()]*(?:\([^()]*\)[^;{}()]*)*\)\s*(?:const\s*)?(?:noexcept\s*)?\{", re.M)
+
+
+def _extra_filters(unit):
+    """Units whose classes live in the global namespace are dumped with a class-name filter; free functions defined in such a
+    unit (file-local helpers) would be invisible. Their names are collected from the source text and dumped as well."""
+    main = _filter_for(unit)
+    if main == "coloquinte":
+        return []
+    try:
+        src = open(repo_path(unit)).read()
+    except OSError:
+        return []
+    names = []
+    for m in _FUNC_DEF.finditer(src):
+        n = m.group(1)
+        before = src[m.start():m.start(1)].rstrip()
+        if before.endswith("::") or main in n or n in ("if", "for", "while", "switch", "return", "main") or n in names:
+            continue
+        names.append(n)
+    return names
+
+
 def _dump_one(unit, flags, outdir):
     out = os.path.join(outdir, unit.replace("/", "__") + ".json")
     if os.path.exists(out) and os.path.getsize(out) > 0:
         return out, 0.0, ""
     t = time.time()
-    cmd = [CLANG] + BASE_FLAGS + flags + ["-Xclang", "-ast-dump=json", "-Xclang",
-                                          "-ast-dump-filter=" + _filter_for(unit), repo_path(unit)]
     tmp = out + ".tmp%d" % os.getpid()
+    err = ""
     with open(tmp, "wb") as fo:
-        r = subprocess.run(cmd, stdout=fo, stderr=subprocess.PIPE)
-    err = r.stderr.decode(errors="replace")
+        for flt in [_filter_for(unit)] + _extra_filters(unit):
+            cmd = [CLANG] + BASE_FLAGS + flags + ["-Xclang", "-ast-dump=json", "-Xclang", "-ast-dump-filter=" + flt, repo_path(unit)]
+            r = subprocess.run(cmd, stdout=fo, stderr=subprocess.PIPE)
+            err = r.stderr.decode(errors="replace")
+            if r.returncode != 0:
+                break
     if r.returncode != 0 or os.path.getsize(tmp) == 0:
         os.unlink(tmp)
         raise AnalysisBroken("clang failed on %s:\n%s" % (unit, err[-2000:]))
